@@ -13,6 +13,9 @@ pub const VERIF: &str = "/verif";
 
 #[derive(Serialize, Deserialize, Clone, Debug)]
 pub struct VLine {
+    /// (log write ordinal, bytes persisted, error instead of death) for crash-point sweeps
+    #[serde(default)]
+    pub sweep: Option<(usize, usize, usize, bool)>,
     pub seed: u64,
     pub op: usize,
     pub prop: String,
@@ -88,6 +91,9 @@ pub fn worker(prop: &str, profile: &str, base: u64, lo: u64, hi: u64, w: u64, nw
     if profile == "spawn" {
         return spawn_worker(prop, base, lo, hi, w, nw);
     }
+    if profile == "C07sweep" {
+        return sweep_worker(prop, base, lo, hi, w, nw);
+    }
     let pf = Profile::for_property(profile);
     let known: Vec<(String, String)> = load_findings().findings.iter().filter(|f| f.status == "known").map(|f| (f.property.clone(), f.code.clone())).collect();
     let sb = Sandbox::new(&format!("w{}", w));
@@ -145,7 +151,7 @@ pub fn worker(prop: &str, profile: &str, base: u64, lo: u64, hi: u64, w: u64, nw
                 continue;
             }
             if v.prop == prop {
-                let l = VLine { seed, op: *opi, prop: v.prop.to_string(), code: v.code.clone(), detail: v.detail.clone() };
+                let l = VLine { sweep: None, seed, op: *opi, prop: v.prop.to_string(), code: v.code.clone(), detail: v.detail.clone() };
                 let mut o = out.lock();
                 let _ = writeln!(o, "V {}", serde_json::to_string(&l).unwrap());
             } else {
@@ -158,6 +164,99 @@ pub fn worker(prop: &str, profile: &str, base: u64, lo: u64, hi: u64, w: u64, nw
     sum.nontrivial_keys = ntk.into_iter().collect();
     sum.shapes = shapes.into_iter().collect();
     sum.state_vectors = svs.into_iter().collect();
+    let mut o = out.lock();
+    let _ = writeln!(o, "S {}", serde_json::to_string(&sum).unwrap());
+    let _ = o.flush();
+}
+
+/// C07 crash-point enumeration: every (log write, bytes persisted) pair of one invocation
+/// of each sampled history.
+fn sweep_worker(prop: &str, base: u64, lo: u64, hi: u64, w: u64, nw: u64) {
+    let sb = Sandbox::new(&format!("x{}", w));
+    let mut sum = WorkerSummary::default();
+    let mut tk: BTreeSet<u64> = BTreeSet::new();
+    let mut ntk: BTreeSet<u64> = BTreeSet::new();
+    let out = std::io::stdout();
+    let known: Vec<(String, String)> = load_findings().findings.iter().filter(|f| f.status == "known").map(|f| (f.property.clone(), f.code.clone())).collect();
+    let mut i = lo + ((w + nw - lo % nw) % nw);
+    while i < hi {
+        let seed = base.wrapping_add(i);
+        {
+            let mut o = out.lock();
+            let _ = writeln!(o, "B {}", seed);
+            let _ = o.flush();
+        }
+        let (mut bsc, idx0) = gen_sweep_base(seed);
+        let r0 = run_scenario(&bsc, &sb, false);
+        // sweep the invocation (not one of the two final ones) that appends most to the log
+        let ninv = r0.inv_db_writes.len();
+        let idx = r0.inv_db_writes[..ninv.saturating_sub(2).max(1)]
+            .iter()
+            .max_by_key(|(_, w)| w.len())
+            .map(|(o, _)| *o)
+            .unwrap_or(idx0);
+        if let Op::Invoke(spec) = &mut bsc.ops[idx] {
+            spec.restat = false;
+        }
+        sum.runs += 1;
+        sum.invocations += r0.invocations as u64;
+        sum.commands += r0.commands as u64;
+        let writes: Vec<usize> = r0.inv_db_writes.iter().find(|(o, _)| *o == idx).map(|(_, v)| v.clone()).unwrap_or_default();
+        let mut report = |r: &crate::exec::RunResult, sweep: Option<(usize, usize, usize, bool)>, sum: &mut WorkerSummary| {
+            let is_known = |v: &crate::host::Violation| known.iter().any(|(p, c)| p == v.prop && c == &v.code);
+            let cut = r.violations.iter().any(|(_, v)| is_known(v));
+            for (opi, v) in &r.violations {
+                if cut && !is_known(v) {
+                    continue;
+                }
+                if v.prop == prop {
+                    let l = VLine { sweep, seed, op: *opi, prop: v.prop.to_string(), code: v.code.clone(), detail: v.detail.clone() };
+                    let mut o = out.lock();
+                    let _ = writeln!(o, "V {}", serde_json::to_string(&l).unwrap());
+                } else {
+                    *sum.other_props.entry(format!("{}.{}", v.prop, v.code)).or_default() += 1;
+                }
+            }
+        };
+        report(&r0, None, &mut sum);
+        if r0.violations.is_empty() {
+            for (wi, len) in writes.iter().enumerate().take(80) {
+                let ks: Vec<usize> = if *len <= 400 { (0..=*len).collect() } else { vec![0, 1, 2, 3, len / 2, len - 1, *len] };
+                for k in ks {
+                    for err in [false, true] {
+                        if err && !(k <= 1 || k + 1 >= *len) {
+                            continue;
+                        }
+                        let sc = sweep_point(&bsc, idx, wi + 1, k, err);
+                        let r = run_scenario(&sc, &sb, false);
+                        sum.runs += 1;
+                        sum.invocations += r.invocations as u64;
+                        sum.commands += r.commands as u64;
+                        sum.ticks += r.ticks as u64;
+                        for (kk, x) in &r.stats {
+                            *sum.stats.entry(kk.clone()).or_default() += x;
+                        }
+                        *sum.stats.entry("probe.sweep_points".into()).or_default() += 1;
+                        for (key, nt) in &r.trace_keys {
+                            tk.insert(*key);
+                            if *nt {
+                                ntk.insert(*key);
+                            }
+                        }
+                        report(&r, Some((idx, wi + 1, k, err)), &mut sum);
+                    }
+                }
+            }
+            *sum.stats.entry("probe.sweep_histories_fully_enumerated".into()).or_default() += 1;
+            if sum.samples.is_empty() && writes.len() >= 3 {
+                sum.samples.push(serde_json::json!({"seed": seed, "engine": "C07 crash-point sweep", "swept_invocation_op": idx, "log_write_sizes": writes,
+                    "history": r0.log.iter().map(|l| l.chars().take(300).collect::<String>()).collect::<Vec<_>>()}));
+            }
+        }
+        i += nw;
+    }
+    sum.trace_keys = tk.into_iter().collect();
+    sum.nontrivial_keys = ntk.into_iter().collect();
     let mut o = out.lock();
     let _ = writeln!(o, "S {}", serde_json::to_string(&sum).unwrap());
     let _ = o.flush();
@@ -378,6 +477,9 @@ pub fn check(prop: &str, tier: &str) -> i32 {
         let n = crate::bigshape::KINDS * if quick { 1 } else { 3 };
         batches.push(Batch { profile: "C08big".into(), lo: 0, hi: n });
     }
+    if prop == "C07" {
+        batches.push(Batch { profile: "C07sweep".into(), lo: 0, hi: env_u64("VERIF_SWEEP_HISTORIES", if quick { 160 } else { 6000 }) });
+    }
     if prop == "C16" || prop == "C05" {
         batches.push(Batch { profile: "spawn".into(), lo: 0, hi: env_u64("VERIF_SPAWN_RUNS", if quick { 3000 } else { 60_000 }) });
     }
@@ -496,7 +598,15 @@ pub fn check(prop: &str, tier: &str) -> i32 {
             Replay { engine: "buildsim-spawn".into(), property: prop.into(), code: code.clone(), detail: detail.clone(), seed: v.seed, profile: profile.clone(), scenario: None, spawn: Some(small) }
         } else {
             let pf = Profile::for_property(profile);
-            let sc = gen_scenario(v.seed, &pf);
+            let sc = if profile == "C07sweep" {
+                let (b, _) = gen_sweep_base(v.seed);
+                match v.sweep {
+                    Some((idx, w, k, err)) => sweep_point(&b, idx, w, k, err),
+                    None => b,
+                }
+            } else {
+                gen_scenario(v.seed, &pf)
+            };
             let sb = Sandbox::new("min");
             let small = if profile == "C08big" {
                 sc
